@@ -16,10 +16,10 @@ package main
 // (R01.4, the pool hand-off rule, is an obligation of C02 as well and is re-checked here.)
 
 import (
-	"os"
 	"fmt"
 	"go/token"
 	"go/types"
+	"os"
 	"sort"
 	"strings"
 
